@@ -72,6 +72,15 @@ func (e *Engine) doCall(st *State, fr *Frame, dst *ssa.Call, cc *ssa.CallCommon,
 				setResult(st, h(e, st, cc, append([]Value{iv.Val}, args...)))
 				return nil
 			}
+			if e.InitMode {
+				// package initialisation of executed library packages (errors.init: reflectlite.TypeOf(..).Elem()): opaque in, opaque out
+				var r Value
+				if res := cc.Signature().Results(); res.Len() == 1 {
+					r = e.opaqueOf(res.At(0).Type())
+				}
+				setResult(st, r)
+				return nil
+			}
 			unsupported("invoke %s on opaque %s", cc.Method.Name(), ov.Tag)
 		}
 		fn = e.L.Prog.LookupMethod(iv.Type, cc.Method.Pkg(), cc.Method.Name())
@@ -172,7 +181,10 @@ func (e *Engine) doCall(st *State, fr *Frame, dst *ssa.Call, cc *ssa.CallCommon,
 		setResult(st, r)
 		return nil
 	}
-	if e.InitMode && fn.Name() == "init" && !strings.HasPrefix(fnPkgPath(fn), "github.com/cloudflare/pint") {
+	// package initialisation: initialisers of pint packages and of the library packages whose bodies we execute
+	// (strings, bytes, unicode/utf8, ...: their lookup tables such as strings.asciiSpace must not stay zero) are run;
+	// other foreign initialisers are skipped, and a later read of a global they would have set is "unsupported" (load).
+	if e.InitMode && fn.Name() == "init" && !strings.HasPrefix(fnPkgPath(fn), "github.com/cloudflare/pint") && !e.executable(fn) {
 		setResult(st, nil)
 		return nil
 	}
